@@ -29,7 +29,7 @@ ASSUMPTIONS = ["clusters are never locked (the statement's exception)",
                "a held clone is queried only while the function it was cloned from is still the current binding"]
 COMPONENTS = {"real": ["twosigma.memento version computation, hash rules, generation counter, version cache", "CPython exec/compile/linecache"],
               "stub": ["generated user program", "uuid4, clock"]}
-REACH = ["queries", "query_points", "via:unregistered", "via:clone", "via:held-clone", "events:redefine", "events:mutate",
+REACH = ["events:define_builtin", "queries", "query_points", "via:unregistered", "via:clone", "via:held-clone", "events:redefine", "events:mutate",
          "events:rebind", "events:swap_kind", "queried_with_undefined_callee"]
 
 QVIAS = ["attr", "attr", "qn", "clone:ignore_result", "clone:force_local", "clone:partial", "clone:context", "unregistered"]
@@ -39,6 +39,8 @@ def unit_cell(prog, u):
     u = tuple(u)
     if u[0] == "g":
         mi = prog["globals"][u[1]]["module"]
+    elif u[0] == "b":
+        mi = u[1]
     else:
         mi = prog["nodes"][u[1]]["module"]
     return {"op": "cell", "module": mi, "text": progen.render_unit(prog, u), "unit": list(u)}
@@ -105,7 +107,7 @@ def gen_case(seed):
             events.append({"op": "setattr", "module": g["module"], "name": g["name"], "value": g["value"], "unit": ["g", e["gid"]],
                            "folded": progen.render_global(new, e["gid"])})
             touched = set(u for u in touched if u[0] != "g")
-        ordk = {"g": 0, "n": 1, "a": 2}
+        ordk = {"g": 0, "b": 0, "n": 1, "a": 2}
         for u in sorted(touched, key=lambda u: (ordk[u[0]], u[1])):
             ev = unit_cell(new, u)
             ev["kind"] = e["kind"]
@@ -282,6 +284,8 @@ def execute(case):
                 bump("events:redefine")
                 if ev["kind"] == "swap_kind":
                     bump("events:swap_kind")
+                if ev["kind"] == "define_builtin":
+                    bump("events:define_builtin")
             elif ev["op"] == "mutate":
                 bump("events:mutate")
                 redefined = True
